@@ -1,41 +1,49 @@
 /-
-  PK.Model.Trie — a Nat-keyed binary radix trie (least significant bit first), the dictionary the
-  lookup tables are kept in.  Everything is structurally recursive (on the trie or on an explicit
-  fuel), so the kernel can evaluate table construction and look-ups; it replaces the hash maps of
-  the python code (dict semantics: last write wins).  Core Lean only.
+  PK.Model.Trie — a Nat-keyed binary radix trie (least significant bit first) with single-key
+  subtrees collapsed into a tip; the dictionary the lookup tables are kept in.  Everything is
+  structurally recursive (on the trie, or on an explicit fuel where two keys are split apart), so the
+  kernel can evaluate table construction and look-ups; it replaces the hash maps of the python code
+  (dict semantics: last write wins).  Core Lean only.
 -/
 namespace PK
 
 inductive Trie (α : Type) where
-  | leaf : Trie α
-  | node : Option α → Trie α → Trie α → Trie α
+  | empty : Trie α
+  | tip : Nat → α → Trie α            -- the only key of this subtree (its remaining bits) and its value
+  | node : Trie α → Trie α → Trie α   -- remaining key even / odd
 deriving Repr, Inhabited
 
 namespace Trie
 
 /-- look-up: structural on the trie -/
 def get? : Trie α → Nat → Option α
-  | leaf, _ => none
-  | node v l r, k => if k = 0 then v else if k % 2 = 0 then get? l (k / 2) else get? r (k / 2)
+  | empty, _ => none
+  | tip k' v, k => if k = k' then some v else none
+  | node l r, k => if k % 2 = 0 then get? l (k / 2) else get? r (k / 2)
 
-/-- insertion with explicit fuel (one unit per bit of the key) -/
-def insertAux : Nat → Trie α → Nat → α → Trie α
-  | 0, t, _, _ => t
-  | f + 1, leaf, k, v =>
-    if k = 0 then node (some v) leaf leaf
-    else if k % 2 = 0 then node none (insertAux f leaf (k / 2) v) leaf
-    else node none leaf (insertAux f leaf (k / 2) v)
-  | f + 1, node x l r, k, v =>
-    if k = 0 then node (some v) l r
-    else if k % 2 = 0 then node x (insertAux f l (k / 2) v) r
-    else node x l (insertAux f r (k / 2) v)
+/-- the trie holding two different keys (fuel: one unit per bit in which they may agree) -/
+def two : Nat → Nat → α → Nat → α → Trie α
+  | 0, k1, v1, _, _ => tip k1 v1
+  | f + 1, k1, v1, k2, v2 =>
+    if k1 % 2 = k2 % 2 then
+      (if k1 % 2 = 0 then node (two f (k1 / 2) v1 (k2 / 2) v2) empty
+       else node empty (two f (k1 / 2) v1 (k2 / 2) v2))
+    else if k1 % 2 = 0 then node (tip (k1 / 2) v1) (tip (k2 / 2) v2)
+    else node (tip (k2 / 2) v2) (tip (k1 / 2) v1)
 
-/-- keys below 2^64 -/
-def insert (t : Trie α) (k : Nat) (v : α) : Trie α := insertAux 65 t k v
+/-- insertion (keys below 2^64): structural on the trie; an existing key gets the new value -/
+def insert : Trie α → Nat → α → Trie α
+  | empty, k, v => tip k v
+  | tip k' v', k, v => if k = k' then tip k v else two 64 k' v' k v
+  | node l r, k, v => if k % 2 = 0 then node (insert l (k / 2) v) r else node l (insert r (k / 2) v)
 
 def contains (t : Trie α) (k : Nat) : Bool := (t.get? k).isSome
 
-def empty : Trie α := leaf
+/-- fold over the values (in trie order) -/
+def fold (f : β → α → β) : β → Trie α → β
+  | b, empty => b
+  | b, tip _ v => f b v
+  | b, node l r => fold f (fold f b l) r
 
 end Trie
 end PK
